@@ -1316,6 +1316,8 @@ func checkC10(c *Ctx, r *Report) {
 	}
 	r.Floor("logging entry points", len(ro.EntryPoints), 15)
 	entryDecisions(r, ro, c.checkEntrySemantics(r, ro, "C10.entry-values"), "C10")
+	// "enabled for the serving logger" across rebinding: operation sequences with loggers of different level ranges
+	c.checkLifecycleSemantics(r, ro, "C10.lifecycle-values", r.Tier == "thorough")
 	{
 		jok, tok := c.checkLayoutSemantics(r, ro, "C10.layout-values")
 		layoutDecisions(r, jok, tok)
